@@ -13,7 +13,8 @@ CONSTANTS MaxDecls,     \* program length bound
           CallsOnly,    \* TRUE: programs are call graphs only (applications A, B, C with endpoints e1, e2)
           MaxNest,      \* scope depth up to which statement blocks may open (application = 1, endpoint = 2)
           TypesOnly,    \* TRUE: applications contain type declarations only (data models)
-          WithPlans     \* TRUE: also print file-partition plans for the finished program (C04)
+          WithPlans,    \* TRUE: also print file-partition plans for the finished program (C04)
+          Inplace       \* TRUE: tuples and tables may have fields whose type is written in place
 
 VARIABLES st, prog, done
 gvars == <<st, prog, done>>
@@ -120,7 +121,11 @@ Groups ==
          (IF Rich THEN {[k |-> "anno", name |-> "note", val |-> "some text"]} ELSE {}),
          {[k |-> "end"]} }
     [] fr.k = "type" ->
-       { (IF fr.kind \in {"tuple", "relation"} THEN
+       { \* a field whose type is written in place (two levels at most)
+         (IF Inplace /\ fr.kind \in {"tuple", "relation"} /\ Len(st.scope) < 4 THEN
+            {[k |-> "inplace", name |-> f, pos |-> NoPos] : f \in PickN(FieldNames \ FieldsOf(fr.app, fr.type), 1)}
+          ELSE {}),
+         (IF fr.kind \in {"tuple", "relation"} THEN
             {[k |-> "field", name |-> f, sh |-> sh, pk |-> pk, tags |-> tg, attrs |-> at, pos |-> NoPos] :
                f \in PickN(FieldNames \ FieldsOf(fr.app, fr.type), 4), sh \in PickShape(fr.app),
                pk \in Pick(IF fr.kind = "relation" THEN BOOLEAN ELSE {FALSE}), tg \in Pick(TagSets \ {<<"t1", "t2">>}),
@@ -231,7 +236,7 @@ Blocks(ds, cur, depth) ==
   IF ds = <<>> THEN (IF cur = <<>> THEN <<>> ELSE <<cur>>)
   ELSE LET d == Head(ds)
            nd == IF d.k = "end" THEN depth - 1
-                 ELSE IF d.k \in {"app", "type", "ep", "event", "sub", "rest", "method", "block", "oneof", "choice"}
+                 ELSE IF d.k \in {"app", "type", "inplace", "ep", "event", "sub", "rest", "method", "block", "oneof", "choice"}
                         THEN depth + 1 ELSE depth
        IN IF nd = 0 THEN <<Append(cur, d)>> \o Blocks(Tail(ds), <<>>, 0)
           ELSE Blocks(Tail(ds), Append(cur, d), nd)
